@@ -134,15 +134,21 @@ impl Tracer {
             }
 
             debug!(target: "tracer", "resume debugee execution, wait for updates");
+            #[cfg(feature = "verif")]
+            crate::debugger::verif::delay(1);
             let status = match waitpid(Pid::from_raw(-1), None) {
                 Ok(status) => status,
                 Err(Errno::ECHILD) => {
+                    #[cfg(feature = "verif")]
+                    crate::debugger::verif::rec_wait_err(Pid::from_raw(-1), Errno::ECHILD);
                     return Ok(StopReason::NoSuchProcess(self.tracee_ctl.proc_pid()));
                 }
                 Err(e) => return Err(Waitpid(e)),
             };
 
             debug!(target: "tracer", "received new thread status: {status:?}");
+            #[cfg(feature = "verif")]
+            crate::debugger::verif::rec_wait(Pid::from_raw(-1), &status);
             if let Some(stop) = self.apply_new_status(tcx, status)? {
                 // if stop fired by quiet signal - go to next iteration, this will inject signal at
                 // a tracee process and resume it
@@ -234,9 +240,19 @@ impl Tracer {
                     }
                 };
 
+                #[cfg(feature = "verif")]
+                crate::debugger::verif::delay(2);
+                #[cfg(feature = "verif")]
+                crate::debugger::verif::rec_req(
+                    crate::debugger::verif::ReqKind::Interrupt,
+                    tracee.pid,
+                    0,
+                );
                 if let Err(e) = sys::ptrace::interrupt(tracee.pid) {
                     // if no such process - continue, it will be removed later, on PTRACE_EVENT_EXIT event.
                     if Errno::ESRCH == e {
+                        #[cfg(feature = "verif")]
+                        crate::debugger::verif::rec_fail();
                         warn!("thread {} not found, ESRCH", tracee.pid);
                         if let Some(t) = self.tracee_ctl.tracee_mut(tracee.pid) {
                             t.set_stop(StopType::Interrupt);
@@ -587,6 +603,12 @@ impl Tracer {
                 matches!(status, WaitStatus::Stopped(_, Signal::SIGTRAP)) && (info.si_code == 5);
             if in_trap {
                 // if in syscall step to syscall end
+                #[cfg(feature = "verif")]
+                crate::debugger::verif::rec_req(
+                    crate::debugger::verif::ReqKind::Syscall,
+                    tracee.pid,
+                    0,
+                );
                 sys::ptrace::syscall(tracee.pid, None).map_err(Ptrace)?;
                 let syscall_status = tracee.wait_one()?;
                 debug_assert!(matches!(
